@@ -69,6 +69,8 @@ type Hist struct {
 	csrRegd   []common.Address // registered ones
 	erc20s    []common.Address // user-deployed ERC20 contracts
 	erc20Own  map[common.Address]int
+	emitters  map[common.Address]bool // user-deployed batch tokens (emitterInit): one call, several Transfer events
+	emitN     uint64
 	regERC20  map[common.Address]bool
 	pending   []pendingTx
 	usedSeq   map[int]uint64
@@ -79,7 +81,7 @@ type Hist struct {
 
 func NewHist(cfg *ChainCfg, r *Rng, ref *Node) *Hist {
 	return &Hist{cfg: cfg, r: r, ref: ref, height: 0, now: cfg.GenTime, stat: map[string]int{}, nextProp: 1,
-		erc20Own: map[common.Address]int{}, regERC20: map[common.Address]bool{}, txPerBlk: 6,
+		erc20Own: map[common.Address]int{}, emitters: map[common.Address]bool{}, regERC20: map[common.Address]bool{}, txPerBlk: 6,
 		govAddr: authtypes.NewModuleAddress(govtypes.ModuleName).String()}
 }
 
@@ -470,6 +472,17 @@ func (h *Hist) genUserTx(ctx sdk.Context) {
 		h.ethTx(ctx, "eth-csr-reregister", h.user(), &c, nil, 500_000, data, nil)
 	case k < 95: // user-deployed ERC20 (candidate for RegisterERC20)
 		i := h.user()
+		if r.Chance(1, 3) {
+			// a batch token: one call emits Transfer(sender_j, erc20 module, 1) for three senders at once
+			_, seq := h.acc(ctx, i)
+			addr := crypto.CreateAddress(h.ethAddr(i), seq)
+			h.ethTx(ctx, "eth-deploy-emitter", i, nil, nil, 1_000_000, emitterInit(fmt.Sprintf("batch%d", h.height)), func() {
+				h.erc20s = append(h.erc20s, addr)
+				h.erc20Own[addr] = i
+				h.emitters[addr] = true
+			})
+			return
+		}
 		ctor, _ := contracts.ERC20MinterBurnerDecimalsContract.ABI.Pack("", fmt.Sprintf("tok%d", h.height), "TK", uint8(6))
 		_, seq := h.acc(ctx, i)
 		addr := crypto.CreateAddress(h.ethAddr(i), seq)
@@ -479,6 +492,25 @@ func (h *Hist) genUserTx(ctx sdk.Context) {
 		})
 	default: // ERC20 mint by the owner / transfer (a transfer to the erc20 module address triggers the conversion hook)
 		pairs := a.Erc20Keeper.GetTokenPairs(ctx)
+		var batch []common.Address
+		for _, p := range pairs {
+			if h.emitters[p.GetERC20Contract()] && p.Enabled {
+				batch = append(batch, p.GetERC20Contract())
+			}
+		}
+		if len(batch) > 0 && r.Chance(1, 2) {
+			// one transaction, three conversions for three senders that have no account yet
+			c := batch[r.Intn(len(batch))]
+			data := []byte{0xba, 0x7c, 0x40, 0x01}
+			for j := 0; j < 3; j++ {
+				h.emitN++
+				fresh := crypto.Keccak256([]byte(fmt.Sprintf("batch-sender-%d", h.emitN)))[12:]
+				data = append(data, common.LeftPadBytes(fresh, 32)...)
+			}
+			data = append(data, common.LeftPadBytes(erc20types.ModuleAddress.Bytes(), 32)...)
+			h.ethTx(ctx, "eth-batch-convert", h.user(), &c, nil, 500_000, data, nil)
+			return
+		}
 		if len(h.erc20s) > 0 && r.Chance(1, 2) {
 			c := h.erc20s[r.Intn(len(h.erc20s))]
 			data, _ := contracts.ERC20MinterBurnerDecimalsContract.ABI.Pack("mint", h.ethAddr(h.user()), big.NewInt(int64(1000+r.Intn(1_000_000))))
@@ -604,4 +636,52 @@ func txBytes(txs []TxSpec) [][]byte {
 		out[i] = t.Bytes
 	}
 	return out
+}
+
+
+// emitterInit: creation code of a hand-assembled "batch token". name() and symbol() answer the given string, decimals()
+// answers 18; any other call with calldata sel | s1 | s2 | s3 | to emits Transfer(s1, to, 1), Transfer(s2, to, 1),
+// Transfer(s3, to, 1) — the receipt of a batch payout / sweep — and moves nothing. (No Solidity compiler in the sandbox.)
+func emitterInit(name string) []byte {
+	sig := crypto.Keccak256([]byte("Transfer(address,address,uint256)"))
+	push2 := func(v int) []byte { return []byte{0x61, byte(v >> 8), byte(v)} }
+	sel := func(id uint32, target int) []byte {
+		b := []byte{0x80, 0x63, byte(id >> 24), byte(id >> 16), byte(id >> 8), byte(id), 0x14}
+		b = append(b, push2(target)...)
+		return append(b, 0x57)
+	}
+	logFrom := func(off byte) []byte {
+		b := []byte{0x60, 0x64, 0x35, 0x60, off, 0x35, 0x7f}
+		b = append(b, sig...)
+		return append(b, 0x60, 0x20, 0x60, 0x00, 0xa3)
+	}
+	build := func(strL, decL int) ([]byte, int, int) {
+		rt := []byte{0x60, 0x00, 0x35, 0x60, 0xe0, 0x1c}
+		rt = append(rt, sel(0x06fdde03, strL)...)
+		rt = append(rt, sel(0x95d89b41, strL)...)
+		rt = append(rt, sel(0x313ce567, decL)...)
+		rt = append(rt, 0x60, 0x01, 0x60, 0x00, 0x52)
+		rt = append(rt, logFrom(0x04)...)
+		rt = append(rt, logFrom(0x24)...)
+		rt = append(rt, logFrom(0x44)...)
+		rt = append(rt, 0x00)
+		s := len(rt)
+		padded := make([]byte, 32)
+		copy(padded, name)
+		rt = append(rt, 0x5b, 0x60, 0x20, 0x60, 0x00, 0x52, 0x60, byte(len(name)), 0x60, 0x20, 0x52, 0x7f)
+		rt = append(rt, padded...)
+		rt = append(rt, 0x60, 0x40, 0x52, 0x60, 0x60, 0x60, 0x00, 0xf3)
+		d := len(rt)
+		rt = append(rt, 0x5b, 0x60, 0x12, 0x60, 0x00, 0x52, 0x60, 0x20, 0x60, 0x00, 0xf3)
+		return rt, s, d
+	}
+	_, sL, dL := build(0, 0)
+	rt, _, _ := build(sL, dL)
+	init := append(append(push2(len(rt)), push2(15)...), 0x60, 0x00, 0x39)
+	init = append(init, push2(len(rt))...)
+	init = append(init, 0x60, 0x00, 0xf3)
+	if len(init) != 15 || len(name) > 31 {
+		panic("emitterInit: layout")
+	}
+	return append(init, rt...)
 }
